@@ -84,9 +84,22 @@ package blob
 // returns, closing the channel - only when the subscriber's or the service's context is done, the header
 // feed was closed, or the response buffer was observed full (len == cap): never for a smaller backlog.
 // (getAll fans out over namespaces in goroutines; it does not write the service)
+//@ pure func concatBlobs(ss [][]*Blob) []*Blob
+//@ extern slices.Concat
+//@   ensures result == concatBlobs(slices)
+// C11: what is listed for a height is the per-namespace results put one after the other in the order
+// the namespaces were asked for - every blob of each result, nothing filtered (byte-identical blobs
+// share a commitment and are distinct entries) - each obtained for this header and its own namespace.
+// (call-site view: getAll fans out over namespaces in goroutines and does not write the service)
+//@ extern (*github.com/celestiaorg/celestia-node/blob.Service).getAll
 //@ func (*Service).getAll
-//@   property C20
-//@   trusted
+//@   property C20 C11
+//@   noframe
+//@   checks result0 == concatBlobs(resultBlobs) && len(resultBlobs) == len(namespaces)
+//@ func (*Service).getAll$1
+//@   property C11
+//@   noframe
+//@   callpre Service).getBlobs: $arg2 == namespace && $arg3 == header
 
 //@ func (*Service).Subscribe$1
 //@   property C20
